@@ -1240,6 +1240,33 @@ def pred_valid(pos, lo=0.0, up=1.0):
     return None
 
 
+def pred_valid_box(pos, bounds):
+    """the same clause in a box given coordinate by coordinate, which may FREEZE a coordinate (lower == upper, a
+    box the bounded minimiser accepts): a frozen coordinate sits on both of its bounds, so it is pinned; the point
+    is refused exactly when no coordinate is free, and 'bounds' is the stated reason only then"""
+    StandardCoordinates, HEF, _ = imports()
+    d = len(pos)
+    c = StandardCoordinates(ndim=d, bounds=[(float(a), float(b)) for a, b in bounds])
+    c.position = np.array(pos, dtype=float)
+    h = HEF(make_stub([0.0] * d), TOL, 10, 1.0)
+    v = np.zeros(d)
+    v[0] = 1.0
+    r, err = call(h.check_valid_eigenvector, v, -1.0, c)
+    allp = all(x <= a or x >= b for x, (a, b) in zip(pos, bounds))
+    if err:
+        return ("check_valid_eigenvector:raises", f"check_valid_eigenvector raised {err} at {pos} in the box {bounds}")
+    if allp and r:
+        return ("check_valid_eigenvector:all-pinned-accepted",
+                f"the point {pos} is pinned in every coordinate of the box {bounds} but is accepted")
+    if not r and h.failure is None:
+        return ("check_valid_eigenvector:refusal-without-reason", f"refused at {pos} in {bounds} with failure None")
+    if not allp and not r and h.failure == "bounds":
+        return ("check_valid_eigenvector:free-coordinate-refused-as-pinned",
+                f"the point {pos} has a free coordinate in the box {bounds} (negative eigenvalue, unit vector) but is "
+                f"refused with the reason 'bounds'")
+    return None
+
+
 def pred_search(spec: dict, x0, np_seed: int, ts_steps: int = 40, reuse: dict | None = None):
     """the success clause / failure clause of the statement on one real search; with `reuse` the SAME
     search object runs one search after the other (as NetworkSampling uses it): nothing of an earlier
@@ -1305,9 +1332,13 @@ def predicates(ctx: Ctx) -> None:
         ("valid", {"pos": [0.0, 0.0, 0.0]}),
         ("valid", {"pos": [0.0, 1.0, 0.5]}),
         ("valid", {"pos": [1.0, 1.0]}),
+        ("validbox", {"pos": [1.0, 0.5, 0.25], "bounds": [[0.0, 1.0], [0.5, 0.5], [0.25, 0.25]]}),
+        ("validbox", {"pos": [0.5, 0.5, 0.0], "bounds": [[0.0, 1.0], [0.5, 0.5], [0.0, 1.0]]}),
+        ("conv", {"g": [5, 0, 0], "lo": [1, 0, 1], "up": [1, 0, 0]}),
     ]
     for kind, data in corpus:
-        r = pred_conv(data["g"], data["lo"], data["up"]) if kind == "conv" else pred_valid(data["pos"])
+        r = pred_conv(data["g"], data["lo"], data["up"]) if kind == "conv" else \
+            pred_valid_box(data["pos"], data["bounds"]) if kind == "validbox" else pred_valid(data["pos"])
         ctx.stats.case({"stream": "predicate-corpus", "kind": kind, **data}, True)
         if r:
             ctx.fail(r[0], r[1], {"kind": kind, **data})
@@ -1325,6 +1356,24 @@ def predicates(ctx: Ctx) -> None:
             ctx.stats.case({"stream": "predicate-valid", "d": d, "pattern": "".join(map(str, pat))}, True)
             if r:
                 ctx.fail(r[0], r[1], {"kind": "valid", "pos": pos})
+        # boxes that freeze coordinates (3 = lower == upper): such a coordinate is at BOTH bounds
+        for _ in range(ctx.scale(12, 60) * deep):
+            pat = [rng.randrange(4) for _k in range(d)]
+            pat[rng.randrange(d)] = 3
+            fz = [rng.choice([0.0, 0.25, 0.5, 1.0]) for _k in range(d)]
+            bounds = [[fz[k], fz[k]] if p == 3 else [0.0, 1.0] for k, p in enumerate(pat)]
+            pos = [fz[k] if p == 3 else 0.0 if p == 1 else 1.0 if p == 2 else rng.choice([0.5, 0.125]) for k, p in enumerate(pat)]
+            r = pred_valid_box(pos, bounds)
+            ctx.stats.case({"stream": "predicate-valid-frozen", "d": d, "pattern": "".join(map(str, pat))}, True)
+            if r:
+                ctx.fail(r[0], r[1], {"kind": "validbox", "pos": pos, "bounds": bounds})
+            lo = [p in (1, 3) for p in pat]
+            up = [p in (2, 3) for p in pat]
+            for name, g in gradients([min(p, 1) for p in pat], rng, 1):
+                r = pred_conv(g, lo, up)
+                ctx.stats.case({"stream": "predicate-conv-frozen", "d": d, "pattern": "".join(map(str, pat)), "g": name}, True)
+                if r:
+                    ctx.fail(r[0], r[1], {"kind": "conv", "g": g, "lo": lo, "up": up})
     specs = surface_specs(ctx, ctx.scale(6, 40) * deep, dims=(2, 3, 4, 5, 6))
     outcomes: dict = {}
     for si, spec in enumerate(specs):
@@ -1391,6 +1440,8 @@ def replay(ctx: Ctx, data: dict) -> bool:
         r = pred_conv(data["g"], data["lo"], data["up"])
     elif kind == "valid":
         r = pred_valid(data["pos"])
+    elif kind == "validbox":
+        r = pred_valid_box(data["pos"], data["bounds"])
     elif kind == "search":
         r = pred_search(data["surface"], data["x0"], data["np_seed"], data.get("ts_steps", 40))
     else:
